@@ -253,6 +253,11 @@ class FastParetoOptimalAlgorithm(BaseParetoOptimalAlgorithm):
     cross_check = self.is_pareto_optimal_against(
         lower_array, higher_array, strict=True)
     lower_pareto = lower_pareto & cross_check
+    # Points sharing their first coordinate can land in different halves, so a
+    # point of the higher half can be dominated by one of the lower half.
+    higher_cross_check = self.is_pareto_optimal_against(
+        higher_array, lower_array, strict=True)
+    higher_pareto = higher_pareto & higher_cross_check
 
     is_optimal = np.zeros(len(points), dtype=bool)
     is_optimal[ascending_indices[:split_index]] = lower_pareto
